@@ -82,6 +82,20 @@ pub fn set_io_yield_decider(f: Option<Box<dyn FnMut() -> bool>>) {
     JUST_BLOCKED.with(|c| c.set(false));
 }
 pub fn set_defer_decider(f: Option<Box<dyn FnMut() -> bool>>) { DEFER.with(|c| *c.borrow_mut() = f); }
+thread_local! { static PREEMPT: RefCell<Option<Box<dyn FnMut(&'static str) -> Option<std::time::Duration>>>> = const { RefCell::new(None) }; }
+/// Decides, per named preemption point, whether the running task is descheduled there and for how long
+/// (zero = one scheduler turn). A preemption point stands between two statements of a region that has no
+/// `.await` of its own: on a multi-threaded runtime another thread can run there, in the single-threaded
+/// simulation nothing could - the point gives the simulator that interleaving. Off unless a decider is installed.
+pub fn set_preempt_decider(f: Option<Box<dyn FnMut(&'static str) -> Option<std::time::Duration>>>) { PREEMPT.with(|c| *c.borrow_mut() = f); }
+pub async fn preempt_point(name: &'static str) {
+    let d = PREEMPT.with(|c| c.borrow_mut().as_mut().and_then(|f| f(name)));
+    match d {
+        Some(d) if d.is_zero() => yield_once().await,
+        Some(d) => tokio::time::sleep(d).await,
+        None => {}
+    }
+}
 thread_local! {
     /// spawn site of every internally spawned task that has not finished yet (leak diagnostics)
     static LIVE_TASKS: RefCell<std::collections::BTreeMap<u64, &'static std::panic::Location<'static>>> = const { RefCell::new(std::collections::BTreeMap::new()) };
